@@ -13,6 +13,12 @@ AbsMin(n, m) == LET am == IF m = MinInt THEN MaxInt ELSE Abs(m)
                     an == IF n = MinInt THEN MaxInt ELSE Abs(n)
                 IN Min2(an, am)
 
+\* admitted alternatives to ApplyRand (equally within the property): CODE.RAND with a limit of exactly 1 may push one leaf
+AltRand(n, s) ==
+  IF n = "CODE.RAND" /\ Has(s, "int", 1) /\ AbsMin(s.int[1], s.cfg.max_rand_points) = 1
+  THEN <<FiredH(PushOn(PopN(s, "int", 1), "code", EmptyList), <<HoleAB(<<"code", 1>>, "randcode", 1, SetAsSeq(DOMAIN s.bind))>>)>>
+  ELSE <<>>
+
 ApplyRand(n, s) ==
   CASE n = "BOOLEAN.RAND" -> FiredH(PushOn(s, "bool", FALSE), <<Hole(<<"bool", 1>>, "bool")>>)
     \* a value in [min, max) when min < max, otherwise nothing
@@ -29,7 +35,9 @@ ApplyRand(n, s) ==
     [] n = "NAME.RANDBOUNDNAME" ->
          IF DOMAIN s.bind = {} THEN FiredH(PushOn(s, "name", ""), <<Hole(<<"name", 1>>, "name")>>)
          ELSE FiredH(PushOn(s, "name", ""), <<HoleAB(<<"name", 1>>, "member", SetAsSeq(DOMAIN s.bind), 0)>>)
-    \* between 1 and limit-1 points for a limit >= 2, nothing for smaller limits
+    \* at most limit points (C12: "never more than |n| nor than max-points"; the implementation stays below the
+    \* limit) for a limit >= 2, nothing for a limit of 0; for a limit of 1 nothing (the implementation) or a single
+    \* leaf (AltRand) are both within the property
     [] n = "CODE.RAND" -> IF ~Has(s, "int", 1) THEN Unfired(s)
                           ELSE LET s1 == PopN(s, "int", 1)
                                    limit == AbsMin(s.int[1], s.cfg.max_rand_points)
